@@ -24,6 +24,13 @@ Theorem C18_every_call_returns : forall fl cf s, reach fl cf s ->
 Proof. exact every_call_returns. Qed.
 Print Assumptions C18_every_call_returns.
 
+(* With the busy guard in update_file / unload_file (flag regenerated from the source) NO client ever unloads an
+   entry whose load or write has not yet been accounted - the root cause of K1-K3 - in ANY configuration (any
+   number of threads, operations, files) under ANY schedule: the ghost mask g_k stays 0. Induction over `step`. *)
+Theorem C18_guard_excludes_K : forall cf s, reach gen_flags cf s -> g_k s = 0.
+Proof. exact (fun cf s => guard_excludes_K gen_flags cf s (eq_refl : fl_busy_guard gen_flags = true)). Qed.
+Print Assumptions C18_guard_excludes_K.
+
 (* Closed finite sets of global states are invariants of ALL schedules of ANY length. *)
 Theorem C18_closed_set_invariant : forall fl cf P st, closed fl cf P st = true ->
   forall s, reach fl cf s ->
@@ -31,7 +38,11 @@ Theorem C18_closed_set_invariant : forall fl cf P st, closed fl cf P st = true -
 Proof. exact closed_set_invariant. Qed.
 Print Assumptions C18_closed_set_invariant.
 
-(* The statement of the property for one configuration, over every schedule (Spec.v):
+(* Since the repair of update_file / unload_file (busy guard, flag fl_busy_guard regenerated from the source) the
+   FULL statement holds for every configuration of every universe; the proofs below only type-check while
+   the regenerated flag computes to true.  Without the guard only the weaker general form holds
+   (Confs.universe_statement: outside K, and full for the non-racy configurations).
+   The statement of the property for one configuration, over every schedule (Spec.v):
      C18_full_statement fl cf       every run is finite; when no thread can move, every call has returned, the
                                     history is linearizable with the disk as final register contents, and
                                     disk = cached contents, entry sizes = len, current_memory_usage = sum of entries
@@ -41,60 +52,66 @@ Print Assumptions C18_closed_set_invariant.
    U31 = 3 threads x 1 operation on file 0 (27 configurations); U2112 below.  No bound on schedules.
    `racy cf` = two different threads address the same file, one with get/update and the other with unload, or one
    with get and the other with update (the configuration class of the known defect). *)
-Theorem C18_conf_2x1 : forall cf, In cf U21 ->
-  C18_outside_K_statement gen_flags cf /\ (racy cf = false -> C18_full_statement gen_flags cf).
-Proof. exact (conf_2x1 (eq_refl : shape_ok = true)). Qed.
+Theorem C18_conf_2x1 : forall cf, In cf U21 -> C18_full_statement gen_flags cf.
+Proof.
+  exact (fun cf H => proj2 (conf_2x1 (eq_refl : shape_ok = true) cf H) (or_introl (eq_refl : fl_busy_guard gen_flags = true))).
+Qed.
 Print Assumptions C18_conf_2x1.
 
-Theorem C18_conf_2x2 : forall cf, In cf U22 ->
-  C18_outside_K_statement gen_flags cf /\ (racy cf = false -> C18_full_statement gen_flags cf).
-Proof. exact (conf_2x2 (eq_refl : shape_ok = true)). Qed.
+Theorem C18_conf_2x2 : forall cf, In cf U22 -> C18_full_statement gen_flags cf.
+Proof.
+  exact (fun cf H => proj2 (conf_2x2 (eq_refl : shape_ok = true) cf H) (or_introl (eq_refl : fl_busy_guard gen_flags = true))).
+Qed.
 Print Assumptions C18_conf_2x2.
 
-Theorem C18_conf_3x1 : forall cf, In cf U31 ->
-  C18_outside_K_statement gen_flags cf /\ (racy cf = false -> C18_full_statement gen_flags cf).
-Proof. exact (conf_3x1 (eq_refl : shape_ok = true)). Qed.
+Theorem C18_conf_3x1 : forall cf, In cf U31 -> C18_full_statement gen_flags cf.
+Proof.
+  exact (fun cf H => proj2 (conf_3x1 (eq_refl : shape_ok = true) cf H) (or_introl (eq_refl : fl_busy_guard gen_flags = true))).
+Qed.
 Print Assumptions C18_conf_3x1.
 
 (* U2112 = 2 threads, 2 operations || 1 operation in {get, update} x files {0,1}, both files on disk, max_memory 6
    so that the two files do not fit together and completions evict (64 configurations). *)
-Theorem C18_conf_2plus1_evict : forall cf, In cf U2112 ->
-  C18_outside_K_statement gen_flags cf /\ (racy cf = false -> C18_full_statement gen_flags cf).
-Proof. exact (conf_2plus1_evict (eq_refl : shape_ok = true)). Qed.
+Theorem C18_conf_2plus1_evict : forall cf, In cf U2112 -> C18_full_statement gen_flags cf.
+Proof.
+  exact (fun cf H => proj2 (conf_2plus1_evict (eq_refl : shape_ok = true) cf H) (or_introl (eq_refl : fl_busy_guard gen_flags = true))).
+Qed.
 Print Assumptions C18_conf_2plus1_evict.
 
 (* U31e = 3 threads x 1 get on files {0,1}, both on disk, max_memory 6 (8 configurations, none racy). *)
-Theorem C18_conf_3x1_evict : forall cf, In cf U31e ->
-  C18_outside_K_statement gen_flags cf /\ (racy cf = false -> C18_full_statement gen_flags cf).
-Proof. exact (conf_3x1_evict (eq_refl : shape_ok = true)). Qed.
+Theorem C18_conf_3x1_evict : forall cf, In cf U31e -> C18_full_statement gen_flags cf.
+Proof.
+  exact (fun cf H => proj2 (conf_3x1_evict (eq_refl : shape_ok = true) cf H) (or_introl (eq_refl : fl_busy_guard gen_flags = true))).
+Qed.
 Print Assumptions C18_conf_3x1_evict.
 
-(* The full statement is false on the racy class. K1 = update_file unloads the entry of a pending load:
+(* Before the repair (old_flags = the same code without the busy guard) the full statement was false on the racy
+   class. K1 = update_file unloads the entry of a pending load:
    {get(0) || update(0)}, file on disk, not cached.  Witness 1: the get returns b"" (torn read), the history
    is not linearizable and current_memory_usage ends at 2 for 7 cached bytes. *)
-Theorem C18_K1_torn_read_refuted :
-  exists s, reach gen_flags cfg_get_upd s /\ enabled gen_flags (cfg_max cfg_get_upd) s = [] /\
+Theorem C18_K1_torn_read_refuted_without_guard :
+  exists s, reach old_flags cfg_get_upd s /\ enabled old_flags (cfg_max cfg_get_upd) s = [] /\
     ~ lin_spec (cfg_disk cfg_get_upd) (rev (g_hist s)) (disk (g_core s)) /\ final_agree s = false /\
     In (ERet 0 0 (RCont [])) (g_hist s) /\ mem (g_core s) = 2.
 Proof. exact k1_torn. Qed.
 
 (* Witness 2 (other completion order): linearizable history, but the entry says 5 bytes for 7 cached bytes (current_memory_usage 7). *)
-Theorem C18_K1_accounting_refuted :
-  exists s, reach gen_flags cfg_get_upd s /\ enabled gen_flags (cfg_max cfg_get_upd) s = [] /\
+Theorem C18_K1_accounting_refuted_without_guard :
+  exists s, reach old_flags cfg_get_upd s /\ enabled old_flags (cfg_max cfg_get_upd) s = [] /\
     lin_spec (cfg_disk cfg_get_upd) (rev (g_hist s)) (disk (g_core s)) /\ final_agree s = false /\
     mem_agrees (g_core s) = false.
 Proof. exact k1_acct. Qed.
 
 (* K2 = unload_file during a pending load: get_file raises AssertionError, current_memory_usage = -5. *)
-Theorem C18_K2_unload_during_load_refuted :
-  exists s, reach gen_flags cfg_get_unl s /\ enabled gen_flags (cfg_max cfg_get_unl) s = [] /\
+Theorem C18_K2_unload_during_load_refuted_without_guard :
+  exists s, reach old_flags cfg_get_unl s /\ enabled old_flags (cfg_max cfg_get_unl) s = [] /\
     ~ lin_spec (cfg_disk cfg_get_unl) (rev (g_hist s)) (disk (g_core s)) /\ final_agree s = false /\
     In (ERet 0 0 (RExn EAssert)) (g_hist s) /\ mem (g_core s) = -5.
 Proof. exact k2. Qed.
 
 (* K3 = unload_file during a pending write: update_file raises AssertionError. *)
-Theorem C18_K3_unload_during_write_refuted :
-  exists s, reach gen_flags cfg_upd_unl s /\ enabled gen_flags (cfg_max cfg_upd_unl) s = [] /\
+Theorem C18_K3_unload_during_write_refuted_without_guard :
+  exists s, reach old_flags cfg_upd_unl s /\ enabled old_flags (cfg_max cfg_upd_unl) s = [] /\
     ~ lin_spec (cfg_disk cfg_upd_unl) (rev (g_hist s)) (disk (g_core s)) /\ final_agree s = false /\
     In (ERet 0 0 (RExn EAssert)) (g_hist s).
 Proof. exact k3. Qed.
